@@ -43,6 +43,12 @@ F = {
     "brackets_pairs": lambda n: "[]" * n,
     "brackets_open_text": lambda n: "[a" * n,
     "bang_brackets_open": lambda n: "![" * n,
+    # an opener, a long run of delimiters of another kind, then closers in crossing order (long-range pairing tables)
+    "cross_star_underscore": lambda n: "*a" + " _b" * n + " c* d_",
+    "cross_strong_em": lambda n: "**a" + " *b" * n + " c** d*",
+    "cross_strike_em": lambda n: "~~a" + " *b" * n + " c~~ d*",
+    "cross_link_em": lambda n: "[a" + " *b" * n + "](u) c*",
+    "cross_em_link": lambda n: "*a" + " [b" * n + " c*](u)",
     # two-part families: something that touches the inline nesting bookkeeping, then a deep run of openers
     "html_a_close_then_brackets": lambda n: "</a>" * n + "[" * n,
     "html_a_open_then_brackets": lambda n: "<a>" * n + "[" * n,
